@@ -98,16 +98,22 @@ def make_alg(cfg: dict):
         kw['wrapper'] = _wraps_wrapper
     elif str(cfg.get('wrapper', '')).startswith('flaky'):
         kw['wrapper'] = FlakyWrapper(int(str(cfg['wrapper'])[5:] or 1))
+    elif cfg.get('wrapper') == 'reentrant':
+        kw['wrapper'] = ReentrantWrapper()
     if cfg.get('symbolcls') == 'sympy':
         import sympy
         kw['codegen_symbolcls'] = sympy.Symbol
     if cfg.get('pretty_blade'):
         kw['pretty_blade'] = cfg['pretty_blade']
     if cfg.get('name'):
-        return Algebra.fromname(cfg['name'], **kw)
-    if cfg.get('signature') is not None:
-        return Algebra(signature=list(cfg['signature']), basis=list(cfg.get('basis') or []), **kw)
-    return Algebra(cfg.get('p', 0), cfg.get('q', 0), cfg.get('r', 0), basis=list(cfg.get('basis') or []), **kw)
+        alg = Algebra.fromname(cfg['name'], **kw)
+    elif cfg.get('signature') is not None:
+        alg = Algebra(signature=list(cfg['signature']), basis=list(cfg.get('basis') or []), **kw)
+    else:
+        alg = Algebra(cfg.get('p', 0), cfg.get('q', 0), cfg.get('r', 0), basis=list(cfg.get('basis') or []), **kw)
+    if isinstance(kw.get('wrapper'), ReentrantWrapper):
+        kw['wrapper'].alg = alg
+    return alg
 
 
 class WrapperFailure(Exception):
@@ -123,6 +129,29 @@ class FlakyWrapper:
         self.n += 1
         if self.n == self.fail_at:
             raise WrapperFailure(f'wrapper failed on its application number {self.n}')
+        return f
+
+
+class ReentrantWrapper:
+    """
+    Semantics-preserving wrapper that itself uses the algebra while a function is being wrapped (i.e.
+    between code generation and cache insertion of the outer call): a deterministic re-entrancy point.
+    """
+    def __init__(self):
+        self.alg = None
+        self.depth = 0
+
+    def __call__(self, f):
+        if self.alg is not None and self.depth == 0:
+            self.depth += 1
+            try:
+                a = self.alg
+                d = a.d
+                x = a.multivector(keys=(0, 2 ** d - 1), values=[2, 3])
+                y = a.multivector(keys=(2 ** d - 1, 0), values=[5, 7])
+                (x * y) + (y ^ x) - ~x
+            finally:
+                self.depth -= 1
         return f
 
 
